@@ -126,6 +126,8 @@ def run(ctx):
         tlc.require_ok(res, "MC_Ungroup")
         ctx.add_tlc("MC_Ungroup %dx%d" % (rows, cols), res)
     streams = list(gc.grid_streams(3, 2, KS_KINDS))
+    # a second grid whose only interrupting note is an auto-keysound (K), the rarest thing found inside a hold
+    streams += [st for st in gc.grid_streams(3, 2, [0, 50, 51, 75]) if any(x["t"] == 75 for x in st)]
     if quick:
         jobs = [(i, s, 6, ctx.seed) for i, s in enumerate(streams)]
     else:
